@@ -87,13 +87,49 @@ def _agg_field(body, pl, at, depth=5):
         if not isinstance(idx, int) or idx >= len(ops):
             return None
         # nothing writes into the aggregate or borrows it mutably between its construction and the read
-        for bb, si, st in body.stmts():
-            if st['k'] == 'assign' and st['lhs']['p'] and st['lhs']['l'] in seen and st['lhs']['p'][0][0] != 'deref':
-                return None
-            if st['k'] == 'assign' and st['rv']['k'] in ('ref', 'rawptr') and st['rv'].get('bk') != 'shared' and st['rv']['pl']['l'] in seen:
-                return None
+        if not _never_modified(body, seen):
+            return None
         return ops[idx], d[1]
     return None
+
+
+def _partially_assigned(body):
+    """Locals that have a field (not behind a dereference) assigned somewhere."""
+    pa = getattr(body, '_partial', None)
+    if pa is None:
+        pa = set()
+        for bb, si, st in body.stmts():
+            if st['k'] == 'assign' and st['lhs']['p'] and st['lhs']['p'][0][0] in ('field', 'downcast'):
+                pa.add(st['lhs']['l'])
+        body._partial = pa
+    return pa
+
+
+def _stable_during_helpers(body, l):
+    """The caller's local `l` is written only by the caller's own statements (never inside a spliced-in helper body) and is
+    never lent out mutably: what a helper was handed by value is what `l` holds for as long as the helper runs."""
+    for bi, blk in enumerate(body.blocks):
+        for st in blk['stmts']:
+            if st['k'] != 'assign':
+                continue
+            if st['lhs']['l'] == l and blk.get('inl'):
+                return False
+            if st['rv']['k'] in ('ref', 'rawptr') and st['rv'].get('bk') != 'shared' and st['rv']['pl']['l'] == l:
+                return False
+        t = blk['term']
+        if t['k'] == 'call' and not t['dest']['p'] and t['dest']['l'] == l and blk.get('inl'):
+            return False
+    return True
+
+
+def _never_modified(body, locals_):
+    """No statement assigns to a part of one of these locals or borrows one of them mutably: each holds what it was given."""
+    for bb, si, st in body.stmts():
+        if st['k'] == 'assign' and st['lhs']['p'] and st['lhs']['l'] in locals_ and st['lhs']['p'][0][0] != 'deref':
+            return False
+        if st['k'] == 'assign' and st['rv']['k'] in ('ref', 'rawptr') and st['rv'].get('bk') != 'shared' and st['rv']['pl']['l'] in locals_:
+            return False
+    return True
 
 
 def body_adt_is_enum(body, rv):
@@ -142,6 +178,14 @@ def describe(body, op, depth=6, at=None):
         return '?'
     pl = op['pl']
     l = pl['l']
+    if pl['p'] and pl['p'][0][0] in ('field', 'downcast') and l in getattr(body, 'inl_params', ()):
+        # a by-value parameter of a spliced-in helper, bound once to a place of the caller (`write_mono(channels, frame)`): while
+        # the helper runs the caller does nothing, so a field of the parameter is that field of the caller's place
+        ds0 = body.defs().get(l, [])
+        if len(ds0) == 1 and ds0[0][0] == 'stmt' and ds0[0][3]['rv']['k'] == 'use' and is_place(ds0[0][3]['rv']['op']) \
+                and _never_modified(body, [l]) and _stable_during_helpers(body, ds0[0][3]['rv']['op']['pl']['l']):
+            src = ds0[0][3]['rv']['op']['pl']
+            return describe(body, {'k': 'copy', 'pl': {'l': src['l'], 'p': list(src['p']) + list(pl['p']), 'ty': pl.get('ty')}}, depth, at=ds0[0][1])
     if pl['p'] and pl['p'][0][0] in ('field', 'downcast') and not (1 <= l <= body.arg_count):
         # a field of an aggregate built in this very function (a command enum constructed by the caller and matched in a
         # spliced-in helper, a tuple bound to a local and then taken apart): the operand that was put there
@@ -149,7 +193,7 @@ def describe(body, op, depth=6, at=None):
         if got is not None:
             return describe(body, got[0], depth - 1, at=got[1])
     if pl['p'] and pl['p'][0][0] in ('field', 'downcast') and not (1 <= l <= body.arg_count) \
-            and body.local_name(l) is None and len(body.defs().get(l, [])) == 1:
+            and (body.local_name(l) is None or (l in getattr(body, 'inl_params', ()) and _never_modified(body, [l]))) and len(body.defs().get(l, [])) == 1:
         # projection of a temporary holding a value: describe the value, then the projection
         base = describe(body, {'k': 'copy', 'pl': {'l': l, 'p': []}}, depth - 1, at=at)
         d0 = body.defs().get(l, [None])[0]
@@ -170,6 +214,10 @@ def describe(body, op, depth=6, at=None):
     if pl['p'] or 1 <= l <= body.arg_count:
         return pretty_place(body, pl)
     ds = body.defs().get(l, [])
+    if len(ds) == 1 and l in _partially_assigned(body):
+        # a local that is built once and then has fields overwritten (`let mut frame = buf[i]; frame.left = ..`): its first
+        # value does not describe it any more - it is described by its name
+        return pretty_place(body, pl)
     if len(ds) != 1:
         d = reaching_def(body, l, at) if at is not None else None
         if d is None:
